@@ -1407,6 +1407,14 @@ class Interp(object):
 
     # ---- math
     def math_call(self, name, args):
+        if name == "fsum":
+            # assumed contract: math.fsum(seq) is the exact sum
+            res = Num("float", 0)
+            for v in self.iterate(args[0]):
+                if not isinstance(v, (int, Num, SBool)) or isinstance(v, str):
+                    raise PyRaise("TypeError", "must be real number, not %s" % type_name(v))
+                res = res + Num.of(v)
+            return res.as_float()
         for a in args:
             if isinstance(a, SObj):
                 raise PyRaise("TypeError", "must be real number, not %s" % a.cls)
